@@ -290,6 +290,13 @@ func (ps *sqlParser) statement() *sqlStmt {
 			ps.expectKw("EXISTS")
 		}
 		return ps.createTable()
+	case ps.isKw("DROP"):
+		ps.next()
+		ps.expectKw("TABLE")
+		if ps.acceptKw("IF") {
+			ps.expectKw("EXISTS")
+		}
+		return &sqlStmt{k: "drop", table: ps.ident()}
 	case ps.isKw("INSERT"), ps.isKw("REPLACE"):
 		return ps.insert()
 	case ps.isKw("UPDATE"):
